@@ -347,6 +347,32 @@ def DMat.entry {α n} [Zero α] : DMat α n → Fin n → Fin n → α
   | .diag d, i, j => if i = j then d i else 0
   | .full D, i, j => D i j
 
+/-- how the argument `D` of `MatrixATADSolver.__init__` presents itself: a `Diagonal` operator (with the number of
+    dimensions of its diagonal) or something handed to `jnp.array` (with its `ndim`) -/
+inductive DArg where
+  | diagonalOp (ndim : Nat)
+  | array (ndim : Nat)
+
+/-- the argument `W`: `None`, a `Diagonal` operator, a jax array, or anything else -/
+inductive WArg where
+  | none
+  | diagonalOp (ndim : Nat)
+  | array
+  | other
+
+/-- the argument checks of `MatrixATADSolver.__init__`, in the order of the code: `D` first (`ValueError`), then `W`
+    (`ValueError` for a `Diagonal` with a non-1-D diagonal, `TypeError` for anything that is not an array) -/
+def atadValidate (d : DArg) (w : WArg) : Except String Unit :=
+  let checkW : Except String Unit :=
+    match w with
+    | .none => .ok ()
+    | .diagonalOp nd => if nd = 1 then .ok () else .error "value"
+    | .array => .ok ()
+    | .other => .error "type"
+  match d with
+  | .diagonalOp nd => if nd = 1 then checkW else .error "value"
+  | .array nd => if nd = 1 ∨ nd = 2 then checkW else .error "value"
+
 structure ATAD (α : Type) (m n : Nat) where
   A : Mat α m n
   D : DMat α n
